@@ -161,7 +161,7 @@ def compare_thin(sc, p, ids, table, vec, f, scale, unit, den, nd, nx, ny):
                     return f"mask: pixel ({i},{j}) is masked but its sample point lies in loaded cell {allowed}"
                 continue
             ok = False
-            per_layer = [False, False, False]      # on a face, concurrent stores of two touching cells may interleave between layers
+            per_entry = [False] * 5
             for k in allowed:
                 if k == -1:
                     continue
@@ -177,8 +177,9 @@ def compare_thin(sc, p, ids, table, vec, f, scale, unit, den, nd, nx, ny):
                 if all(close):
                     ok = True
                     break
-                per_layer = [per_layer[0] or close[0], per_layer[1] or close[1], per_layer[2] or all(close[2:])]
-            if not ok and len(allowed) > 1 and all(per_layer):
+                per_entry = [a or b for a, b in zip(per_entry, close)]
+            # on a face, the stores of two touching cells may interleave entry by entry (each buffer row is written separately)
+            if not ok and len(allowed) > 1 and all(per_entry):
                 ok = True
             if not ok:
                 return (f"pixel: ({i},{j}) shows density {float(dens['data'][j, i])!r} level {float(lev['data'][j, i])!r} vector {[float(x) for x in vel['data'][j, i]]}, "
